@@ -17,7 +17,9 @@ import (
 	"github.com/codenotary/immudb/embedded/appendable"
 	"github.com/codenotary/immudb/embedded/appendable/multiapp"
 	"github.com/codenotary/immudb/embedded/appendable/singleapp"
+	"github.com/codenotary/immudb/embedded/vhooks/vsched"
 	"verif/mc/lib"
+	"verif/mc/sched"
 )
 
 var c *lib.Check
@@ -473,8 +475,100 @@ func configs(thorough bool) []cfg {
 	return out
 }
 
+// ---- E1: concurrent readers (and the prefetch-ahead goroutines) during/after appends on a multi-file log
+func concScenario(name string, maxOpen, prefetch, readers int, appendWhileReading bool) sched.Scenario {
+	return sched.Scenario{Name: name, MaxSteps: 400000, Body: func(dir string) string {
+		o := multiapp.DefaultOptions().WithFileSize(8).WithWriteBufferSize(4).WithMaxOpenedFiles(maxOpen).WithFileExt("aof").
+			WithReadBufferSize(16).WithPrefetchAheadDepth(prefetch).WithMetadata(meta)
+		a, err := multiapp.Open(filepath.Join(dir, "m"), o)
+		if err != nil {
+			sched.Report("open-failed", err.Error())
+			return "open-failed"
+		}
+		var data []byte
+		for i := 0; i < 3; i++ {
+			bs := bytes.Repeat([]byte{byte('a' + i)}, 9)
+			if _, _, err := a.Append(bs); err != nil {
+				sched.Report("append-failed", err.Error())
+			}
+			data = append(data, bs...)
+		}
+		if err := a.Flush(); err != nil {
+			sched.Report("flush-failed", err.Error())
+		}
+		stable := len(data) // bytes appended before the readers start
+		res := make([]string, readers)
+		for r := 0; r < readers; r++ {
+			r := r
+			vsched.Spawn(func() {
+				// sequential reads chunk by chunk (the pattern that triggers prefetch-ahead)
+				for off := 8 * r; off+8 <= stable; off += 8 {
+					buf := make([]byte, 8)
+					n, err := a.ReadAt(buf, int64(off))
+					if err != nil || n != 8 || !bytes.Equal(buf, data[off:off+8]) {
+						sched.Report(fmt.Sprintf("concurrent-read scenario=%s err=%s", name, errWord(err)), fmt.Sprintf("ReadAt(off=%d,len=8)=%q n=%d err=%v want %q", off, buf[:max(n, 0)], n, err, data[off:off+8]))
+						res[r] = "bad"
+						return
+					}
+				}
+				res[r] = "ok"
+			})
+		}
+		if appendWhileReading {
+			vsched.Spawn(func() {
+				if _, _, err := a.Append([]byte("zzzzzzzzz")); err != nil {
+					sched.Report("append-failed", err.Error())
+				}
+			})
+		}
+		vsched.Join()
+		if err := a.Close(); err != nil {
+			sched.Report("close-failed scenario="+name+" "+errWord(err), err.Error())
+		}
+		return fmt.Sprint(res)
+	}}
+}
+
+func errWord(err error) string {
+	if err == nil {
+		return "none"
+	}
+	return strings.ReplaceAll(err.Error(), " ", "_")
+}
+
+func concScenarios() ([]sched.Scenario, []string) {
+	scs := []sched.Scenario{
+		concScenario("reader-prefetch1-open1", 1, 1, 1, false),
+		concScenario("2readers-prefetch1-open2", 2, 1, 2, false),
+		concScenario("reader+appender-open1", 1, 0, 1, true),
+	}
+	var names []string
+	for _, s := range scs {
+		names = append(names, s.Name)
+	}
+	return scs, names
+}
+
 func main() {
-	c = lib.New("C17", "model_checking", 100*time.Second, 25*time.Minute)
+	c = lib.New("C17", "model_checking", 120*time.Second, 25*time.Minute)
+	{
+		// scheduler workers / schedule replays of the concurrent scenarios
+		scs, _ := concScenarios()
+		if sched.IsWorker() {
+			sched.Run(c, scs, nil)
+		}
+		if c.ReplayPath != "" {
+			var sr struct {
+				Scenario string `json:"scenario"`
+			}
+			c.LoadReplay(&sr)
+			if sr.Scenario != "" {
+				sched.Run(c, scs, nil)
+			}
+		}
+	}
+	fullDeadline := c.Deadline
+	c.Deadline = c.Start.Add(fullDeadline.Sub(c.Start) * 60 / 100)
 	c.Assume("single process, sequential use (concurrent readers are exercised by C02/C14 scheduler harnesses through the store)")
 	c.Assume("remote (S3) appendables are out of scope")
 	cfgs := configs(c.Thorough())
@@ -509,5 +603,22 @@ func main() {
 		}
 	}
 	c.Set("depth_target", maxDepth)
-	c.Finish("every sequence over the 13-operation alphabet up to depth_completed (iterative deepening, all configurations at each depth); after every step Size, Metadata and ReadAt on a grid of (offset,len) incl. across the end are compared with the byte-slice / entry-table model; distinct = distinct (configuration, sequence) pairs that ran to their end", !c.Expired())
+	{
+		seqDone := !c.Expired()
+		c.Deadline = fullDeadline
+		scs, names := concScenarios()
+		var jobs []sched.Job
+		bound, each := 2, 12*time.Second
+		if c.Thorough() {
+			bound, each = 3, 2*time.Minute
+		}
+		for _, n := range names {
+			jobs = append(jobs, sched.Job{Scenario: n, Bound: bound, Budget: each})
+		}
+		sched.Run(c, scs, jobs)
+		if !seqDone {
+			c.CapHit("sequence phase stopped at its share of the time budget")
+		}
+	}
+	c.Finish("every sequence over the 13-operation alphabet up to depth_completed (iterative deepening, all configurations at each depth); after every step Size, Metadata and ReadAt on a grid of (offset,len) incl. across the end are compared with the byte-slice / entry-table model; distinct = distinct (configuration, sequence) pairs that ran to their end; plus, under the controlled scheduler, every schedule up to the preemption bound of concurrent readers / prefetch-ahead goroutines / an appender on a multi-file log", !c.Expired())
 }
